@@ -302,4 +302,108 @@ example :
       [.flag true, .flag true, .val 9, .flag true] := by
   decide
 
+/-! ### disjoint writers (`ffi atomic … w`)
+
+  Transactions (and client writes, which run under the same lock) that touch disjoint points
+  commute: applied in either order they leave the same map and each one returns the results it
+  would return alone — nothing one of them did is undone by the other.  Together with
+  `transaction_atomic` (every schedule is a serial execution in which each completed actor appears
+  exactly once) this is what the `lost=0` field of `ffi atomic` stands for: the counter of thread t
+  ends at the number of its transactions and every acknowledged client write is still there. -/
+
+theorem step_other (m : AMap) (p : DbOp) (t' : Table) (i' : Nat) (h : (t', i') ≠ p.point) :
+    (m.step p).1 t' i' = m t' i' := by
+  apply tables_independent
+  cases p <;> simp_all [DbOp.point]
+
+theorem step_local (m m' : AMap) (p : DbOp) (h : m p.point.1 p.point.2 = m' p.point.1 p.point.2) :
+    (m.step p).2 = (m'.step p).2 ∧
+    (m.step p).1 p.point.1 p.point.2 = (m'.step p).1 p.point.1 p.point.2 := by
+  cases p <;> simp only [DbOp.point] at h <;> simp only [AMap.step, DbOp.point, h] <;>
+    split <;> simp_all [AMap.set]
+
+theorem disjoint_ops_commute (m : AMap) (p q : DbOp) (h : p.point ≠ q.point) :
+    ((m.step p).1.step q).1 = ((m.step q).1.step p).1 ∧
+    ((m.step p).1.step q).2 = (m.step q).2 ∧ ((m.step q).1.step p).2 = (m.step p).2 := by
+  have hq : (m.step p).1 q.point.1 q.point.2 = m q.point.1 q.point.2 :=
+    step_other m p _ _ (fun e => h e.symm)
+  have hp : (m.step q).1 p.point.1 p.point.2 = m p.point.1 p.point.2 :=
+    step_other m q _ _ h
+  refine ⟨?_, (step_local _ _ q hq).1, (step_local _ _ p hp).1⟩
+  funext t i
+  by_cases h1 : (t, i) = p.point
+  · have e1 : t = p.point.1 := congrArg Prod.fst h1
+    have e2 : i = p.point.2 := congrArg Prod.snd h1
+    subst e1 e2
+    rw [step_other _ q _ _ (by rw [h1]; exact h), (step_local _ _ p hp).2]
+  · by_cases h2 : (t, i) = q.point
+    · have e1 : t = q.point.1 := congrArg Prod.fst h2
+      have e2 : i = q.point.2 := congrArg Prod.snd h2
+      subst e1 e2
+      rw [step_other _ p _ _ h1, ← (step_local _ _ q hq).2]
+    · rw [step_other _ q _ _ h2, step_other _ p _ _ h1, step_other _ p _ _ h1, step_other _ q _ _ h2]
+
+theorem step_run_commute (m : AMap) (p : DbOp) (b : List DbOp) (h : ∀ q ∈ b, p.point ≠ q.point) :
+    ((m.step p).1.run b).1 = ((m.run b).1.step p).1 ∧
+    ((m.step p).1.run b).2 = (m.run b).2 ∧ ((m.run b).1.step p).2 = (m.step p).2 := by
+  induction b generalizing m with
+  | nil => simp [AMap.run]
+  | cons q qs ih =>
+    obtain ⟨c1, c2, c3⟩ := disjoint_ops_commute m p q (h q (List.mem_cons_self ..))
+    obtain ⟨i1, i2, i3⟩ := ih (m.step q).1 (fun x hx => h x (List.mem_cons_of_mem _ hx))
+    simp only [AMap.run]
+    rw [c1, c2, i1, i2, i3, c3]
+    exact ⟨rfl, rfl, rfl⟩
+
+theorem disjoint_writers_commute (m : AMap) (a b : List DbOp)
+    (h : ∀ p ∈ a, ∀ q ∈ b, p.point ≠ q.point) :
+    ((m.run a).1.run b).1 = ((m.run b).1.run a).1 ∧
+    ((m.run a).1.run b).2 = (m.run b).2 ∧ ((m.run b).1.run a).2 = (m.run a).2 := by
+  induction a generalizing m with
+  | nil => simp [AMap.run]
+  | cons p ps ih =>
+    obtain ⟨c1, c2, c3⟩ := step_run_commute m p b (h p (List.mem_cons_self ..))
+    obtain ⟨i1, i2, i3⟩ := ih (m.step p).1 (fun x hx => h x (List.mem_cons_of_mem _ hx))
+    simp only [AMap.run]
+    rw [i1, i2, c2, ← c1, i3, c3]
+    exact ⟨rfl, rfl, rfl⟩
+
+theorem db_disjoint_writers_commute (db : Db) (a b : List DbOp)
+    (h : ∀ p ∈ a, ∀ q ∈ b, p.point ≠ q.point) (t : Table) (i : Nat) :
+    ((db.run a).1.run b).1.find t i = ((db.run b).1.run a).1.find t i ∧
+    ((db.run a).1.run b).2 = (db.run b).2 ∧ ((db.run b).1.run a).2 = (db.run a).2 := by
+  have ra := Db.run_refines db a
+  have rb := Db.run_refines db b
+  have rab := Db.run_refines (db.run a).1 b
+  have rba := Db.run_refines (db.run b).1 a
+  obtain ⟨c1, c2, c3⟩ := disjoint_writers_commute db.abs a b h
+  refine ⟨?_, ?_, ?_⟩
+  · have e1 : ((db.run a).1.run b).1.abs t i = ((db.run b).1.run a).1.abs t i := by
+      rw [rab.2, rba.2, ra.2, rb.2, c1]
+    exact e1
+  · rw [rab.1, ra.2, c2, rb.1]
+  · rw [rba.1, rb.2, c3, ra.1]
+
+theorem incr_applied_once (db : Db) (i v : Nat) (h : db.find .holding i = some v) :
+    (db.incr i).find .holding i = some ((v + 1) % 65536) ∧
+    ∀ t' i', ¬ (t' = .holding ∧ i' = i) → (db.incr i).find t' i' = db.find t' i' := by
+  have r := (Db.run_refines db (incrOps db i)).2
+  have ha : db.abs .holding i = some v := h
+  have key : ∀ t' i', (db.incr i).find t' i' = (db.abs.run (incrOps db i)).1 t' i' := by
+    intro t' i'
+    show (db.run (incrOps db i)).1.abs t' i' = _
+    rw [r]
+  refine ⟨?_, ?_⟩
+  · rw [key]; simp [incrOps, h, AMap.run, AMap.step, ha, AMap.set]
+  · intro t' i' hne
+    rw [key]; simp [incrOps, h, AMap.run, AMap.step, ha, AMap.set, hne]
+    rfl
+/-- two counters, two increments each, interleaved in two different orders: same database -/
+example :
+    let db : Db := { holding := [(200, 0), (201, 65535)] }
+    (((db.incr 200).incr 201).incr 200).incr 201 = (((db.incr 201).incr 201).incr 200).incr 200 ∧
+    ((((db.incr 200).incr 201).incr 200).incr 201).find .holding 200 = some 2 ∧
+    ((((db.incr 200).incr 201).incr 200).incr 201).find .holding 201 = some 1 := by
+  decide
+
 end Rodbus.C19
